@@ -365,6 +365,7 @@ type vc9Run struct {
 	hasBad     bool
 	afterEvent bool
 	lastTicked map[int64]bool // minutes ticked by any daemon instance so far
+	dead       bool           // a tick of this member's daemon blocked for good: nothing more can be judged
 	expected   int64          // calls the reference expected in this member
 	vioSigs    map[string]bool
 	cfgHash    uint64
@@ -524,11 +525,32 @@ func (r *vc9Run) down() {
 	if r.d == nil {
 		return
 	}
+	if r.d.done != nil && r.dead {
+		// the daemon of this member is wedged (reported as a violation): its goroutines cannot end; leave them behind
+		close(r.d.done)
+		time.Sleep(20 * time.Millisecond)
+		r.h.baseG = runtime.NumGoroutine()
+		r.d = nil
+		return
+	}
 	if r.d.done != nil {
 		close(r.d.done)
-		deadline := time.Now().Add(30 * time.Second)
+		wait := 30 * time.Second
+		if vc9LockHeldSeen {
+			wait = time.Second
+		}
+		deadline := time.Now().Add(wait)
 		for vc9WatcherAlive() {
 			if time.Now().After(deadline) {
+				if !r.d.er.dagsLock.TryLock() {
+					// the watcher cannot end because the DAG table's lock is held for good
+					vc9LockHeldSeen = true
+					r.violate("C09/hang/entry-table-lock-held/at-shutdown", fmt.Sprintf("the directory watcher did not end after the daemon was stopped: the lock of the DAG table is held for good. Member: %s", r.describe()))
+					r.h.baseG = runtime.NumGoroutine()
+					r.d = nil
+					return
+				}
+				r.d.er.dagsLock.Unlock()
 				r.h.res.CheckError("watcher goroutine did not end within 30 s after done was closed")
 				break
 			}
@@ -597,7 +619,25 @@ func (r *vc9Run) sync(when string) bool {
 		}
 		until := time.Now().Add(wait)
 		for spins := 0; ; spins++ {
-			r.d.er.dagsLock.Lock()
+			locked := false
+			lockWait := 20 * time.Second
+			if vc9LockHeldSeen {
+				lockWait = 2 * time.Second // already established once in this process: later members fail fast
+			}
+			for t0 := time.Now(); time.Since(t0) < lockWait; time.Sleep(200 * time.Microsecond) {
+				if r.d.er.dagsLock.TryLock() {
+					locked = true
+					break
+				}
+			}
+			if !locked {
+				vc9LockHeldSeen = true
+				// somebody (the watcher) holds the entry table's lock for good: every later tick would block in Read
+				r.violate("C09/hang/entry-table-lock-held/"+r.eventClass(), fmt.Sprintf("the lock of the daemon's DAG table has been held for 20 s after a directory event: no tick can read the entries any more, nothing is scheduled. Member: %s", r.describe()))
+				r.dead = true
+				r.aborted = true
+				return false
+			}
 			_, seen := r.d.er.dags[name]
 			r.d.er.dagsLock.Unlock()
 			if seen {
@@ -631,6 +671,8 @@ func (r *vc9Run) sync(when string) bool {
 		}
 	}
 }
+
+var vc9LockHeldSeen bool
 
 func (r *vc9Run) eventClass() string {
 	var ks []string
@@ -696,6 +738,9 @@ func (r *vc9Run) pump() {
 
 func (r *vc9Run) tick(t time.Time) {
 	h := r.h
+	if r.dead {
+		return
+	}
 	wall := now()
 	um := t.Unix() / 60
 	civ := ref.FromUnixMin(um)
@@ -713,7 +758,9 @@ func (r *vc9Run) tick(t time.Time) {
 	w.mu.Unlock()
 
 	base := runtime.NumGoroutine()
-	func() {
+	ticked := make(chan struct{})
+	go func() {
+		defer close(ticked)
 		defer func() {
 			if rec := recover(); rec != nil {
 				r.violate("C09/panic/run", fmt.Sprintf("Scheduler.run(%s) panicked: %v; %s", t.Format(time.RFC3339), rec, r.describe()))
@@ -721,6 +768,14 @@ func (r *vc9Run) tick(t time.Time) {
 		}()
 		r.d.s.run(t)
 	}()
+	select {
+	case <-ticked:
+	case <-time.After(60 * time.Second):
+		// the daemon's tick never returned (e.g. the entry reader's lock is held for good): no DAG is scheduled any more
+		r.violate("C09/hang/tick-blocked", fmt.Sprintf("Scheduler.run(%s) did not return within 60 s: the daemon schedules nothing any more; %s", t.Format(time.RFC3339), r.describe()))
+		r.dead = true
+		return
+	}
 	for spins := 0; runtime.NumGoroutine() > base; spins++ {
 		runtime.Gosched()
 		if spins > 1<<16 {
@@ -947,6 +1002,13 @@ func (h *vc9H) run(m *vc9Member) {
 		return
 	}
 	res := h.res
+	if vc9LockHeldSeen {
+		// a daemon of this process is wedged for good (reported as a violation): its watcher and inotify
+		// instance cannot be released, later members would only measure that leak
+		res.Cap("a daemon wedged (violation reported): the remaining members of this shard were skipped")
+		res.Count("members_skipped_after_wedge", 1)
+		return
+	}
 	res.Evaluations++
 	res.Count("members:"+m.Fam, 1)
 	r := &vc9Run{h: h, m: m, lastTicked: map[int64]bool{}, vioSigs: map[string]bool{}}
